@@ -16,7 +16,9 @@ CONSTANTS
   StopAfterOps = 6
   StopPcs = {"notstarted", "top", "shortcut", "select", "get", "handling", "handled", "apply", "exit", "stopped"}
   ElapsedAlways = FALSE
+  WithCancel = TRUE
+  CancelPcs = {"notstarted", "top", "shortcut", "select", "get", "handling", "handled", "apply", "exit", "stopped"}
 VIEW View
-INVARIANTS TypeOK NoEmptySlot ListFaithful NoLateStart
-PROPERTIES HeadFirst FailKeepsPosition DelayRespected
+INVARIANTS TypeOK NoEmptySlot ListFaithful NoLateStart CancelScoped
+PROPERTIES HeadFirst FailKeepsPosition DelayRespected CancelWakes
 CHECK_DEADLOCK FALSE
